@@ -310,6 +310,29 @@ def decode_Ulimits (v : Val) : Out :=
     | _, _ => .err "invalid-type"
   | _ => .err "invalid-type"
 
+/-- the typed value in the convention of the generic decoder (`Model/Decode.lean`): all four rendered fields of the
+    struct, the inlined extension map last (it is never filled by `DecodeMapstructure`) -/
+def mkUlimitT (single soft hard : Int) : Val :=
+  .map [("Single", .int single), ("Soft", .int soft), ("Hard", .int hard), ("Extensions", .null)]
+
+/-- one limit of the mapping form: an absent key leaves 0, anything but an int is an error (`soft.(int)`) -/
+def ulimitKey (kvs : List (String × Val)) (k : String) : Option Int :=
+  match Val.lookup k kvs with
+  | none => some 0
+  | some (.int i) => some i
+  | some _ => none
+
+/-- `(*UlimitsConfig).DecodeMapstructure` alone, as `loader.Transform` calls it on a fresh value (no schema, no
+    `transformUlimits`): an int is the single limit; a mapping gives soft and hard, each optional, other keys ignored -/
+def decodeDM_Ulimits : Val → Out
+  | .null => .ok (mkUlimitT 0 0 0)        -- mapstructure leaves the zero value on a nil input
+  | .int i => .ok (mkUlimitT i 0 0)
+  | .map kvs =>
+    match ulimitKey kvs "soft", ulimitKey kvs "hard" with
+    | some s, some h => .ok (mkUlimitT 0 s h)
+    | _, _ => .err "invalid-type"
+  | _ => .err "invalid-type"
+
 /-! ## EnvFile — `types/envfile.go`, `transform/envfile.go` -/
 
 def getStr (kvs : List (String × Val)) (k : String) : String :=
